@@ -9,22 +9,15 @@ From Verif.Driver Require Import Show C15drv DecShow.
 Import ListNotations.
 Local Open Scope string_scope.
 
-(* what the specification functions demand of an observation (class, payload) for one packet *)
+(* what the specification demands of an observation (class, payload) for one packet: exactly
+   the message the byte string denotes under the template state, and an error exactly when it
+   denotes none; a panic, hang, allocation blow-up or crash is never acceptable *)
 Definition C03_holds_on (m : mode) (reg : list ie) (tm : tmap) (bytes : list byte)
            (obs : string * string) : bool :=
-  let '(cls, payload) := obs in
-  if String.eqb cls "err" then true
-  else if String.eqb cls "tpl" then
-    match spec_template m reg bytes with
-    | Some (h, tid, es) => String.eqb payload (snd (show_msg (TemplateMsg h tid es)))
-    | None => false
-    end
-  else if String.eqb cls "data" then
-    match spec_packet_data m tm bytes with
-    | Some (h, tid, rs) => String.eqb payload (snd (show_msg (DataMsg h tid rs)))
-    | None => false
-    end
-  else false.    (* panic, hang, oom, crash, fuel *)
+  match spec_packet m reg tm bytes with
+  | Some msg => String.eqb (fst obs) (fst (show_msg msg)) && String.eqb (snd obs) (snd (show_msg msg))
+  | None => String.eqb (fst obs) "err"
+  end.
 
 (* over a history: every packet's observation, against the model's template state *)
 Fixpoint C03_holds_hist (m : mode) (reg : list ie) (tm : tmap) (pkts : list (list byte))
